@@ -1,6 +1,6 @@
 ------------------------------ MODULE C10Trace ------------------------------
 (* V mode for C10: judge the typed parsers on rendered documents.             *)
-EXTENDS DebDocs, TraceLib
+EXTENDS DebDocs, TraceLib, LongTrace
 VARIABLES l, verdict
 vars == <<l, verdict>>
 
@@ -54,6 +54,6 @@ Judge(rec) ==
       [] OTHER -> V(FALSE, "unknown-event", "unknown event")
 
 Init == l \in 1..Len(Trace) /\ verdict = Pending
-Next == verdict.class = "pending" /\ verdict' = Judge(Trace[l]) /\ UNCHANGED l
+Next == verdict.class = "pending" /\ verdict' = JudgeOrCrash(Trace[l], LAMBDA r : IF IsLong(r) THEN JudgeLong(r) ELSE Judge(r)) /\ UNCHANGED l
 Spec == Init /\ [][Next]_vars
 =============================================================================
